@@ -1,5 +1,6 @@
 (* C15  Shipped transports deliver messages intact and in order.
-   Statements only; every proof is `exact <lemma of WireProofs / FramingProofs>`.
+   Statements only; every proof is `exact <lemma of WireProofs / FramingProofs / ShippedProofs /
+   JsonTextProofs / JsonArrayProofs>`.
    The models (Wire.v, Framing.v, Shipped.v) describe /repo as it is now; GenChecks/C15.v ties
    the shapes and tables they use to the current sources, Checks/C15check.v ties their
    behaviour to the real codecs on every run. *)
